@@ -121,8 +121,12 @@ Leave(t) ==
 
 (* start task u from t: ctx.spawn (how = "spawn": joins t's current group) or a plain asyncio
    task (how = "plain"); either way u inherits a snapshot of t's context *)
+ScopeOpen(s) == \E w \in Tasks : \E i \in DOMAIN frames[w] : frames[w][i].sid = s
 Start(t, u, how) ==
   /\ Op(t) /\ pc[u] = "unborn" /\ \A w \in Tasks : w < u => pc[w] # "unborn"
+  \* ctx.spawn from a plain task that outlived the async scope it inherited hits a finished TaskGroup and raises
+  \* RuntimeError (observed, judged by none of the properties): that corner is outside this model
+  /\ (how = "spawn" => (tg[t] = 0 \/ ScopeOpen(tg[t])))
   /\ pc' = [pc EXCEPT ![u] = "gate"]
   /\ st' = [st EXCEPT ![u] = st[t]] /\ on' = [on EXCEPT ![u] = on[t]]
   /\ ms' = [ms EXCEPT ![u] = ms[t]] /\ tg' = [tg EXCEPT ![u] = IF Bug = "leak_group" THEN 0 ELSE tg[t]]
